@@ -5,6 +5,8 @@ import json, os, re
 rows = []
 for sid in sorted(os.listdir('/verif/seeded')):
     m = json.load(open('/verif/seeded/%s/meta.json' % sid))
+    if m.get('kept') is False:
+        continue
     esc = lambda t: (t or '').replace('|', '\\|').replace('\n', ' ')
     prop = m['breaks_property']
     c = m.get('checks', {}).get(prop, {})
